@@ -3,6 +3,7 @@ package harness
 import (
 	"crypto/ed25519"
 	"crypto/rand"
+	"errors"
 	"fmt"
 	"net"
 	"os"
@@ -53,6 +54,22 @@ func c17Init() {
 		{"A", "hosta:2222", &net.TCPAddr{IP: net.ParseIP("10.0.0.1"), Port: 2222}, c17Keys[0]},
 		{"B", "hostb:2222", &net.TCPAddr{IP: net.ParseIP("10.0.0.2"), Port: 2222}, c17Keys[2]},
 	}
+	// host C presents a host CERTIFICATE issued by a certificate authority no known-hosts line names (anybody can
+	// mint one): x/crypto's lookup fails with an error that is not a *knownhosts.KeyError
+	{
+		_, caPriv, _ := ed25519.GenerateKey(rand.Reader)
+		ca, err := ssh.NewSignerFromKey(caPriv)
+		if err != nil {
+			panic(err)
+		}
+		hostPub, _, _ := ed25519.GenerateKey(rand.Reader)
+		hk, _ := ssh.NewPublicKey(hostPub)
+		cert := &ssh.Certificate{Key: hk, Serial: 1, CertType: ssh.HostCert, KeyId: "hostc", ValidPrincipals: []string{"hostc"}, ValidAfter: 0, ValidBefore: ssh.CertTimeInfinity}
+		if err := cert.SignCert(rand.Reader, ca); err != nil {
+			panic(err)
+		}
+		c17Hosts = append(c17Hosts, c17Host{"C(certificate of an unknown CA)", "hostc:2222", &net.TCPAddr{IP: net.ParseIP("10.0.0.3"), Port: 2222}, cert})
+	}
 }
 
 // the known_hosts line alphabet
@@ -69,6 +86,7 @@ func c17Lines() map[string]string {
 		"comment":    "# a comment line",
 		"blank":      "",
 		"revokedC":   "@revoked * " + strings.SplitN(knownhosts.Line([]string{"x"}, c17Keys[3]), " ", 2)[1],
+		"revokedA":   "@revoked * " + strings.SplitN(knownhosts.Line([]string{"x"}, c17Keys[0]), " ", 2)[1], // the key host A presents is REVOKED
 		"other":      knownhosts.Line([]string{"unrelated.example:22"}, c17Keys[3]),
 	}
 }
@@ -316,7 +334,12 @@ func c17FileOracle(before, after string, trusted []c17Host, path string) string 
 	newLines := map[string]bool{}
 	for _, h := range trusted {
 		if e := db(h.Server, h.Remote, h.Key); e != nil {
-			return fmt.Sprintf("host %s was approved but the rewritten known-hosts file does not accept it: %v", h.Name, e)
+			// (a revocation line stays in force, and a certificate is never matched by a plain line: there the entry
+			// was added, which is all the statement asks for)
+			var rev *knownhosts.RevokedError
+			if _, isCert := h.Key.(*ssh.Certificate); !isCert && !errors.As(e, &rev) {
+				return fmt.Sprintf("host %s was approved but the rewritten known-hosts file does not accept it: %v", h.Name, e)
+			}
 		}
 		related[knownhosts.Normalize(h.Server)] = true
 		related[knownhosts.Normalize(h.Remote.String())] = true
@@ -351,7 +374,7 @@ func c17FileOracle(before, after string, trusted []c17Host, path string) string 
 }
 
 func c17ParamSets(tier string) (ps []c17Params) {
-	names := []string{"A:key", "A:otherkey", "B:key", "A:hashed", "A,B:multi", "A:ip", "comment", "blank", "revokedC", "other"}
+	names := []string{"A:key", "A:otherkey", "B:key", "A:hashed", "A,B:multi", "A:ip", "comment", "blank", "revokedC", "other", "revokedA"}
 	var files [][]string
 	n := 2
 	if tier == "thorough" {
@@ -389,6 +412,17 @@ func c17ParamSets(tier string) (ps []c17Params) {
 					ps = append(ps, c17Params{File: f, Contact: contact, Answer: "", CancelMs: ms})
 				}
 			}
+			if len(f) <= 1 && len(contact) == 1 {
+				// together with / alone: a host that presents a certificate of an unknown authority
+				for _, ans := range []string{"y\n", "n\n", "no\n", "bogus\nn\n"} {
+					first := []int{2} // with host A in the list: C alone; with host B: C before B
+					if contact[0] == 1 {
+						first = []int{2, 1}
+					}
+					ps = append(ps, c17Params{File: f, Contact: first, Answer: ans}, c17Params{File: f, Contact: []int{contact[0], 2}, Answer: ans})
+				}
+				ps = append(ps, c17Params{File: f, Contact: []int{2}, Answer: "", TrustAll: true})
+			}
 			if len(f) <= 1 {
 				// the same through the client's real initialisation, with each way of finding the private key
 				for _, via := range []string{"key", "home"} {
@@ -407,7 +441,7 @@ func init() {
 	Register(&Check{
 		ID:    "C17",
 		Level: "model_checking",
-		Rule: "known-hosts files = all sequences of <=2 (quick) / <=3 (thorough) lines over 10 line kinds (entry for A with the right key, with a changed key, entry for B, hashed entry, multi-host entry, IP entry, comment, blank, @revoked line, unrelated host); " +
+		Rule: "known-hosts files = all sequences of <=2 (quick) / <=3 (thorough) lines over 11 line kinds (entry for A with the right key, with a changed key, entry for B, hashed entry, multi-host entry, IP entry, comment, blank, @revoked line for an unrelated key, @revoked line for the very key host A presents, unrelated host); a third host that presents a host certificate issued by an authority no line names (alone and next to A or B); " +
 			"contacted servers {A}, {B}, {A,B} with their current keys; the callback obtained directly and (files of <=1 line) through the client's InitSSHAuthMethods with an explicit private key file and with ~/.ssh/id_rsa; a re-connect of the same client to a host that now presents another key (second prompt answered n); the client's context ending 500..2500 ms after connecting with no answer on stdin (no callback may then answer 'trusted' for an unknown host); answers y / n / a / d+y / garbage+n / yes / no / empty line+n / 'ye'+n / 'Y'+no / blank+n / 'nope'+n, and trust-all; the real Wrap() callbacks run as goroutines against the real PromptAddHosts loop (2 s batching timer in virtual time, scripted stdin), " +
 			"all schedules with <=1 deviation; oracle: proceed <=> x/crypto knownhosts accepts the key OR the user approved OR trust-all; a refused host is reported untrusted; the file afterwards accepts every newly trusted host, keeps every unrelated old line byte-identical " +
 			"and in order, adds nothing else, and is unchanged when nobody was newly trusted",
